@@ -199,6 +199,8 @@ export function assembleModule(rng, { decls, call, imports = ['defineComponent']
     : layout === 'splitType' ? `import { defineComponent } from "vue";\nimport type { ${others.join(', ')} } from "vue";`
     : layout === 'splitTypeFirst' ? `import type { ${others.join(', ')} } from "vue";\nimport { defineComponent } from "vue";`
     : `import { defineComponent } from "vue";\nimport { ref, ${others.map((x) => 'type ' + x).join(', ')} } from "vue";`;
+  // an import declaration need not be the first item of a module
+  const lead = rng.bool(0.12) ? rng.pick(['"use strict";', 'export type LeadT = 1;', 'export interface LeadI { z: 1 }', 'const leadV = 1;']) + '\n' : '';
   const texts = decls.map((d) => d.text);
   if (local) {
     // every declaration lives inside a function; an outer declaration with the same name denotes something else
@@ -207,7 +209,7 @@ export function assembleModule(rng, { decls, call, imports = ['defineComponent']
     const body = texts.map((t) => t.replace(/^export /, '')).join('\n  ');
     // the scope may be a function declaration or only reachable through an expression
     const form = local === true ? 'fnDecl' : local;
-    const head = `${imp}\n${outer}\n${extra}\n`;
+    const head = `${lead}${imp}\n${outer}\n${extra}\n`;
     switch (form) {
       case 'arrow': return `${head}const make = () => {\n  ${body}\n  return ${call};\n};\nexport const Comp = make();\n`;
       case 'fnExpr': return `${head}const make = function () {\n  ${body}\n  return ${call};\n};\nexport const Comp = make();\n`;
@@ -221,7 +223,7 @@ export function assembleModule(rng, { decls, call, imports = ['defineComponent']
   let before = texts, after = [];
   if (order === 'after') { before = []; after = texts; }
   else if (order === 'mixed') { before = texts.filter((_, i) => i % 2 === 0); after = texts.filter((_, i) => i % 2 === 1); }
-  return `${imp}\n${before.join('\n')}\n${extra}\nexport const Comp = ${call};\n${after.join('\n')}\n`;
+  return `${lead}${imp}\n${before.join('\n')}\n${extra}\nexport const Comp = ${call};\n${after.join('\n')}\n`;
 }
 
 // ---------------------------------------------------------------- runtime type atoms (C17)
